@@ -37,11 +37,16 @@ type Exec struct {
 	AllSteps bool
 	// observations
 	UnprotectedSteps int
-	Deadlock         bool
-	Panics           []string
-	Diverged         bool // a replayed prefix asked for a choice that does not exist
-	clock            int
-	abort            bool
+	// InsideSteps makes statements INSIDE critical sections scheduling points too (needed when the code under test
+	// uses TryLock: a failed attempt is only reachable while another thread is preempted holding the lock)
+	InsideSteps bool
+	// TryLocks counts TryLock calls of the execution
+	TryLocks int
+	Deadlock bool
+	Panics   []string
+	Diverged bool // a replayed prefix asked for a choice that does not exist
+	clock    int
+	abort    bool
 }
 
 // Tick returns a fresh logical timestamp (for call/return histories).
@@ -71,8 +76,17 @@ func (e *Exec) Wake(obj interface{}) {
 
 func (e *Exec) Held(d int) { e.cur.held += d }
 
+// NoteTryLock is called by the mutex shim on every TryLock.
+func (e *Exec) NoteTryLock() { e.TryLocks++ }
+
 func (e *Exec) Step() {
-	if e.cur == nil || e.cur.held > 0 {
+	if e.cur == nil {
+		return
+	}
+	if e.cur.held > 0 {
+		if e.InsideSteps {
+			e.switchOut()
+		}
 		return
 	}
 	e.UnprotectedSteps++
@@ -92,7 +106,12 @@ func (e *Exec) switchOut() {
 
 // Run executes the thread bodies under the schedule prefix (then choice 0).
 func Run(prefix []int, allSteps bool, bodies []func(e *Exec)) *Exec {
-	e := &Exec{prefix: prefix, AllSteps: allSteps, yield: make(chan struct{})}
+	return RunOpts(prefix, allSteps, false, bodies)
+}
+
+// RunOpts is Run with statement-level points inside critical sections as well (inside).
+func RunOpts(prefix []int, allSteps, inside bool, bodies []func(e *Exec)) *Exec {
+	e := &Exec{prefix: prefix, AllSteps: allSteps, InsideSteps: inside, yield: make(chan struct{})}
 	for i, b := range bodies {
 		t := &thread{id: i, resume: make(chan struct{})}
 		e.threads = append(e.threads, t)
